@@ -409,6 +409,8 @@ def stages(tier):
         extra.append({"name": "fuzz", "kind": "fuzz", "flavour": "fuzz", "target": fuzz_target, "run": fuzz_replay, "shards": 8,
                       "max_len": 64, "runs": {"quick": 4000, "thorough": 400000},
                       "seeds": [bytes([3, 0, 0, 1, 0, 5]), bytes([40, 1, 1, 3]) + b"\x00" * 8, bytes([90, 2, 2, 6, 2, 0, 1, 0, 2])]})
+    from vf.props import c01x
+    extra += c01x.stages(tier)
     return extra + [
         {"name": "grid", "kind": "enum", "batch": True, "gen": grid_gen, "run": grid_run, "shards": 16, "exhaustive": True},
         {"name": "random", "kind": "hyp", "strategy": lambda tier: random_case(), "run": random_run,
